@@ -286,7 +286,7 @@ def reference_read(block: bytes):
 
 def finalize(agg, tier):
     c = agg["counters"]
-    reasons = [f"workload never produced '{k}'" for k in ("tag_k_unit", "tag_plain_unit", "tag_clock", "tag_multi_value", "tag_text_value", "sweep_values", "sweep_values_one_below_exact")
+    reasons = [f"workload never produced '{k}'" for k in ("tag_k_unit", "tag_plain_unit", "tag_clock", "tag_multi_value", "tag_text_value", "sweep_values")
                if c.get(k, 0) == 0]
     want = 1000000 // (10 if tier == "quick" else 1)
     extra = {"sweep_exhaustive": c.get("sweep_values", 0) == 1000000}
